@@ -133,6 +133,14 @@ class Interp:
                     raise Unknown('yield outside a generator run')
                 env['__yielded__'].append(ev(st.value.value, env) if st.value.value is not None else None)
                 return
+            if isinstance(st.value, ast.YieldFrom):
+                if '__yielded__' not in env:
+                    raise Unknown('yield from outside a generator run')
+                sub = ev(st.value.value, env)
+                if isinstance(sub, Sym):
+                    raise Unknown(f'yield from a symbolic iterable: {ast.unparse(st.value.value)}')
+                env['__yielded__'].extend(list(sub))
+                return
             ev(st.value, env)
         elif t is ast.Assign:
             val = ev(st.value, env)
@@ -169,6 +177,27 @@ class Interp:
                     break
             if not broke:
                 self.block(st.orelse, env)
+        elif t is ast.While:
+            broke = False
+            while True:
+                self.tick()
+                c = ev(st.test, env)
+                if isinstance(c, Sym):
+                    raise Unknown(f'loop on symbolic condition: {ast.unparse(st.test)}')
+                if not c:
+                    break
+                try:
+                    self.block(st.body, env)
+                except _Continue:
+                    continue
+                except _Break:
+                    broke = True
+                    break
+            if not broke:
+                self.block(st.orelse, env)
+        elif t is ast.AnnAssign:
+            if st.value is not None:
+                self.assign(st.target, ev(st.value, env), env)
         elif t is ast.Return:
             raise Return(ev(st.value, env) if st.value is not None else None)
         elif t is ast.Raise:
